@@ -1,1 +1,36 @@
-fn main() {}
+use cfbsim::supervisor;
+
+#[global_allocator]
+static ALLOC: supervisor::alloc_count::Counting = supervisor::alloc_count::Counting;
+
+fn main() {
+    let args: Vec<String> = std::env::args().collect();
+    let code = match args.get(1).map(|s| s.as_str()) {
+        Some("run") => supervisor::run_main(&args[2..]),
+        Some("worker") => supervisor::worker_main(&args[2..]),
+        Some("exec-case") => supervisor::exec_case_main(),
+        Some("replay") => match args.get(2) {
+            Some(p) => supervisor::replay_main(p),
+            None => 2,
+        },
+        Some("gen-case") => {
+            // debugging aid: print the explicit case for (check, index)
+            let check = args.get(2).cloned().unwrap_or_default();
+            let idx: u64 = args.get(3).and_then(|s| s.parse().ok()).unwrap_or(0);
+            let seed: u64 = std::env::var("VERIF_SEED").ok().and_then(|s| s.parse().ok()).unwrap_or(1);
+            let tier = if args.get(4).map(|s| s.as_str()) == Some("thorough") { cfbsim::checks::Tier::Thorough } else { cfbsim::checks::Tier::Quick };
+            match cfbsim::checks::get(&check) {
+                Some(d) => {
+                    println!("{}", serde_json::to_string_pretty(&(d.gen)(seed, idx, tier).to_json()).unwrap());
+                    0
+                }
+                None => 2,
+            }
+        }
+        _ => {
+            eprintln!("usage: cfbsim run --check Cxx [--tier quick|thorough] [--seed N] [-j W] [--cases N] | replay <file> | exec-case | gen-case Cxx idx");
+            2
+        }
+    };
+    std::process::exit(code);
+}
